@@ -1034,7 +1034,8 @@ type lcMap struct {
 
 var lcTable = []lcMap{
 	{'\u0041', '\u005A', LowercaseAdd, 32},
-	{'\u00C0', '\u00DE', LowercaseAdd, 32},
+	{'\u00C0', '\u00D6', LowercaseAdd, 32},
+	{'\u00D8', '\u00DE', LowercaseAdd, 32},
 	{'\u0100', '\u012E', LowercaseBor, 0},
 	{'\u0130', '\u0130', LowercaseSet, 0x0069},
 	{'\u0132', '\u0136', LowercaseBor, 0},
@@ -1083,7 +1084,8 @@ var lcTable = []lcMap{
 	{'\u0388', '\u038A', LowercaseAdd, 37},
 	{'\u038C', '\u038C', LowercaseSet, 0x03CC},
 	{'\u038E', '\u038F', LowercaseAdd, 63},
-	{'\u0391', '\u03AB', LowercaseAdd, 32},
+	{'\u0391', '\u03A1', LowercaseAdd, 32},
+	{'\u03A3', '\u03AB', LowercaseAdd, 32},
 	{'\u03E2', '\u03EE', LowercaseBor, 0},
 	{'\u0401', '\u040F', LowercaseAdd, 80},
 	{'\u0410', '\u042F', LowercaseAdd, 32},
@@ -1096,10 +1098,12 @@ var lcTable = []lcMap{
 	{'\u04EE', '\u04F4', LowercaseBor, 0},
 	{'\u04F8', '\u04F8', LowercaseSet, 0x04F9},
 	{'\u0531', '\u0556', LowercaseAdd, 48},
-	{'\u10A0', '\u10C5', LowercaseAdd, 48},
-	{'\u1E00', '\u1EF8', LowercaseBor, 0},
+	{'\u10A0', '\u10C5', LowercaseAdd, 7264},
+	{'\u1E00', '\u1E94', LowercaseBor, 0},
+	{'\u1E9E', '\u1E9E', LowercaseSet, 0x00DF},
+	{'\u1EA0', '\u1EF8', LowercaseBor, 0},
 	{'\u1F08', '\u1F0F', LowercaseAdd, -8},
-	{'\u1F18', '\u1F1F', LowercaseAdd, -8},
+	{'\u1F18', '\u1F1D', LowercaseAdd, -8},
 	{'\u1F28', '\u1F2F', LowercaseAdd, -8},
 	{'\u1F38', '\u1F3F', LowercaseAdd, -8},
 	{'\u1F48', '\u1F4D', LowercaseAdd, -8},
@@ -1125,7 +1129,7 @@ var lcTable = []lcMap{
 	{'\u1FFA', '\u1FFB', LowercaseAdd, -126},
 	{'\u1FFC', '\u1FFC', LowercaseSet, 0x1FF3},
 	{'\u2160', '\u216F', LowercaseAdd, 16},
-	{'\u24B6', '\u24D0', LowercaseAdd, 26},
+	{'\u24B6', '\u24CF', LowercaseAdd, 26},
 	{'\uFF21', '\uFF3A', LowercaseAdd, 32},
 }
 
